@@ -159,7 +159,7 @@ theorem downBody_step (P : DownParams) (hok : P.Ok) (c p : Nat) (hp : p < 2) (G0
           · -- destination complete
             have hst2 : DStInv P ⟨st.dstIdx + 1, [], 0, st.out ++ [P.task c p st.dstIdx (rlNew cur1)]⟩ := by
               refine ⟨by simp only; omega, fun _ => Or.inr rfl, fun _ => ⟨rfl, rfl⟩, fun h => absurd rfl h, ?_⟩
-              exact dOutInv_emit_done hinv.out hlt c p hp _ (by omega)
+              exact dOutInv_emit_done hinv.out hlt c p hp (rlNew cur1) (show compact (rlNew cur1) = rlNew cur1 from compact_of_normal (normal_compact cur1)) (by omega)
             have hI2 : DI P c p G0 out0 d0
                 (rl1, ⟨st.dstIdx + 1, [], 0, st.out ++ [P.task c p st.dstIdx (rlNew cur1)]⟩) := by
               refine ⟨htasc, hst2, piecesAbove_nil rl1, fun h => absurd rfl h, ?_, hbud,
@@ -179,7 +179,7 @@ theorem downBody_step (P : DownParams) (hok : P.Ok) (c p : Nat) (hp : p < 2) (G0
             · have hB' : (slotsNum rl1 == 0) = true := by simpa using hB
               have hst2 : DStInv P ⟨st.dstIdx, [], st.curNum + moved, st.out ++ [P.task c p st.dstIdx (rlNew cur1)]⟩ := by
                 refine ⟨hinv.le, fun _ => Or.inl hA', fun h => absurd h hD, fun h => absurd rfl h, ?_⟩
-                exact dOutInv_emit_open hinv.out hlt c p hp _ _ (by omega)
+                exact dOutInv_emit_open hinv.out hlt c p hp (rlNew cur1) (show compact (rlNew cur1) = rlNew cur1 from compact_of_normal (normal_compact cur1)) _ (by omega)
               simp only [hA, hB', decide_false, Bool.false_or, if_true, if_false]
               refine Or.inl ⟨_, rfl, ⟨htasc, hst2, piecesAbove_nil rl1, fun h => absurd rfl h, ?_, hbud,
                 outs_snoc _ houts rfl rfl, hmono⟩, hB, rfl⟩
